@@ -25,6 +25,7 @@ class Env:
         self.ncalls = 0
         self.locks = []
         self.blocked_flock = None
+        self.release_epoch = 0      # bumped whenever an OS lock may have become free (unlock / close)
 
     # -- identity / clock ---------------------------------------------------
     def me(self):
@@ -63,8 +64,7 @@ class Env:
         # Linux semantics: the descriptor is gone even when close() reports an error
         real_os.close(fd)
         self.open_fds.pop(fd, None)
-        if self.sched:
-            self.sched.notify_all()
+        self.release_epoch += 1
         self._env_call('close')
 
     # -- fcntl ----------------------------------------------------------------
@@ -74,8 +74,7 @@ class Env:
                 self.sched.point('flock.unlock')
             self._env_call('unlock')
             real_fcntl.flock(fd, real_fcntl.LOCK_UN)
-            if self.sched:
-                self.sched.notify_all()
+            self.release_epoch += 1
             return
         if self.sched:
             self.sched.point('flock.lock')
@@ -89,8 +88,9 @@ class Env:
                     raise
                 if self.sched is None:
                     raise WouldBlockForever('flock(LOCK_EX) on a lock nobody will release')
-                # park until somebody unlocks / closes, then probe the kernel again
-                self.sched.wait_event('flock')
+                # park until somebody unlocks / closes a descriptor, then probe the kernel again
+                snap = self.release_epoch
+                self.sched.wait_until(lambda: self.release_epoch > snap, None, 'flock')
 
     # -- module namespaces ----------------------------------------------------
     def namespaces(self):
